@@ -153,6 +153,19 @@ func init() {
 		Outside:     []string{"two-parameter generic classes", "concurrent instantiation (only sequential orders)", "histories longer than 4"},
 	})
 
+	reg(Check{
+		ID:  "C12",
+		Pkg: "verif/harness/c12",
+		Runs: []RunDef{
+			{Fn: "H_parse_define", Tier: "quick", Reach: []string{"end"}},
+			{Fn: "H_history", Params: k(1), Tier: "quick", Reach: []string{"end"}},
+			{Fn: "H_history", Params: k(2), Tier: "quick", Reach: []string{"end"}},
+			{Fn: "H_history", Params: k(3), Tier: "thorough", Reach: []string{"end"}},
+		},
+		Rule:        rule + "; every history of k operations (op in {AddClass, AddFunc, AddInterface, GetClass, GetFunc, GetInterface}) x (VM in {base, temp1, temp2}) x (name in {a, A, b}: a case-fold collision and a distinct name); after each step a relational check compares what every other VM resolves for every pool name with what it resolved before the step (no name-matching model needed), and everything the base resolves must be resolvable through each temporary VM. Finite enumeration through the engine",
+		Outside:     []string{"histories longer than 3, more than 2 temporary VMs, pools larger than 3 names", "instantiate/call/discard operations, LoadPkg autoloading from files"},
+	})
+
 	c17 := func(fn string, p map[string]int) RunDef {
 		return RunDef{Fn: fn, Params: p, Tier: "quick", Reach: []string{"end"}}
 	}
